@@ -83,6 +83,7 @@ static int g_env_gc = 0;             /* the environment's collection is running 
 static int g_env_gc_done = 0;
 static int g_own_gc = 0;             /* collections of the code under test that passed the error gate */
 static int g_env_latched = 0;        /* another thread latched an error meanwhile */
+static int g_env_switched = 0;       /* a writer switched memtables meanwhile */
 /* broadcast bookkeeping */
 static int g_bcast_n = 0;
 static ldb_memtable_t *b_imm; static int b_err, b_sched, b_hasimm;
@@ -117,6 +118,7 @@ vp_on_unlock(void) {
   if (db.imm == NULL && !g_env_gc && vp_bool()) {
     /* a writer switches memtables: new log, full memtable becomes imm; it
        finds a background call scheduled (ours) and does not schedule another */
+    g_env_switched = 1;
     db.logfile_number = vs.next_file_number++;
     db.imm = &mems[1];
     mems[1].refs = 1;
@@ -510,9 +512,8 @@ harness(void) {
   VP_ASSERT(g_imm_unref == 1 && mems[0].refs == 0, "flushed memtable released once");
   VP_ASSERT(db.imm != imm0, "imm no longer the flushed memtable");
   VP_ASSERT(vs.log_number == logfile0 && vs.prev_log_number == 0, "C03.d version set now names the log that was current during the flush");
-#if VP_MODE == 0
-  VP_ASSERT(db.has_imm == (db.imm != NULL), "has_imm stored");
-#endif
+  VP_ASSERT(g_env_switched ? (db.imm == &mems[1] && db.has_imm == 1) : (db.imm == NULL && db.has_imm == 0),
+            "imm = NULL and has_imm = 0 stored (unless a writer installed a new imm afterwards)");
   /* the collection that follows: exactly the reference set for the NEW state */
   if (g_own_gc == 1) {
 #if !VP_ENVGC
